@@ -1010,7 +1010,7 @@ impl<'a> G<'a> {
     }
 
     fn macro_defs(&mut self) {
-        let n = self.r.urange(1, 2);
+        let n = self.r.urange(1, 3);
         for i in 0..n {
             let name = format!("m_{}", i);
             let np = self.r.urange(0, 2);
@@ -1056,13 +1056,32 @@ impl<'a> G<'a> {
             }
             // nested use of an earlier macro
             if i > 0 && self.r.chance(50) {
-                let (pn, pnp, pem, prem) = self.macros[0].clone();
+                let (pn, pnp, pem, prem) = self.r.pick(&self.macros).clone();
                 let args: Vec<String> = (0..pnp).map(|_| "7".to_owned()).collect();
                 let u = format!("{}({})", pn, args.join(","));
-                body.push(u.clone());
-                ref_body.push(u);
-                em.extend(pem);
-                rem.extend(prem);
+                // anywhere in the body: instructions of the outer macro may follow the inner use
+                // (body items and emitted classes are parallel up to here: one instruction each)
+                let at = if body.len() == em.len() && ref_body.len() == rem.len() && body.len() == ref_body.len() {
+                    self.r.urange(0, body.len())
+                } else {
+                    body.len()
+                };
+                if at < body.len() {
+                    body.insert(at, u.clone());
+                    ref_body.insert(at, u);
+                    let tail_em = em.split_off(at);
+                    let tail_rem = rem.split_off(at);
+                    em.extend(pem);
+                    em.extend(tail_em);
+                    rem.extend(prem);
+                    rem.extend(tail_rem);
+                    self.tag("nested_macro_inside");
+                } else {
+                    body.push(u.clone());
+                    ref_body.push(u);
+                    em.extend(pem);
+                    rem.extend(prem);
+                }
                 self.tag("nested_macro");
             }
             let t = format!("macro {}({}) -> {} <-", name, params.join(","), body.join(" "));
